@@ -77,7 +77,7 @@ structure InvS (a : ACfg) (s : St) : Prop where
   d2 : s.cpc = .waitD2 → s.astatus .D2 = .cancelled ∨ alive2 (s.astatus .D2) = false ∨
         (s.astatus .D2 = .waitE ∧ ∃ v, s.aprog .D2 = .cleanupClose v)
   cc : ∀ v, s.aprog .D2 = .cleanupClose v → alive2 (s.astatus .D2) = true → a.closedFirst = false
-  hc : ∀ v, s.aprog .D2 = .handlerClose v → alive2 (s.astatus .D2) = true → a.msgBeh v = .close
+  hc : ∀ v, s.aprog .D2 = .handlerClose v → alive2 (s.astatus .D2) = true → a.msgBeh v = .close ∨ ∃ k, a.msgBeh v = .awaitClose k
   can : s.astatus .D2 = .cancelled → s.cpc = .waitD2
   v2 : s.cpc = .waitV2 → s.astatus .V2 = .cancelled ∨ alive2 (s.astatus .V2) = false
   dn : s.built = true → (s.cpc = .waitV2 ∨ lateStage s.cpc = true) → alive2 (s.astatus .D2) = false ∧ s.disp2Set = false
@@ -258,7 +258,7 @@ structure PreC (a : ACfg) (s : St) : Prop where
   ty : ∀ t, alive2 (s.astatus t) = true → allowed2 t (s.aprog t) = true
   wq : ∀ t, s.astatus t = .waitQ → t = .D2 ∨ t = .V2
   cc : ∀ v, s.aprog .D2 = .cleanupClose v → alive2 (s.astatus .D2) = true → a.closedFirst = false
-  hc : ∀ v, s.aprog .D2 = .handlerClose v → alive2 (s.astatus .D2) = true → a.msgBeh v = .close
+  hc : ∀ v, s.aprog .D2 = .handlerClose v → alive2 (s.astatus .D2) = true → a.msgBeh v = .close ∨ ∃ k, a.msgBeh v = .awaitClose k
   da : alive2 (s.astatus .D2) = true → s.disp2Set = true
   vs : s.astatus .V2 ≠ .waitE
 
